@@ -285,6 +285,32 @@ CORPUS = [
                   {"name": "c1", "stage": 0, "refs": [0], "wa": {"replicate": 2}},
                   {"name": "c2", "stage": 0, "refs": [1], "wa": {"aggregate": True}}],
      "scripts": {"stage0.c11": ["KnownIssue"]}, "seed": 13, "k": 8},
+    # two stages (= wfMS / opsMS of Props/C02.lean): c0 ends shut-down in stage 0, its consumer c2 lives in stage 1.
+    # first schedule: the notification of c0 is the last one of stage 0, c2 is inspected only after initialise(stage 1);
+    # second schedule: c2 is inspected (promotion) while stage 0 is still current.  Components: 0 = stage0.c0,
+    # 1 = stage0.c1, 2 = stage1.c3, 3 = stage1.c2
+    {"template": [{"name": "c0", "stage": 0, "refs": [], "wa": {"shutdownOn": ["KnownIssue"]}},
+                  {"name": "c1", "stage": 0, "refs": [], "wa": {}},
+                  {"name": "c2", "stage": 1, "refs": [0], "wa": {}},
+                  {"name": "c3", "stage": 1, "refs": [], "wa": {}}],
+     "cont": [], "scripts": {"stage0.c0": ["KnownIssue"]}, "seed": 3, "k": 2,
+     "schedules": [
+         [["sched"], ["sched"], ["exit", 1], ["pm", 1], ["fin", 1], ["exit", 0], ["pm", 0], ["fin", 0], ["next"],
+          ["sched"], ["sched"], ["fin", 3], ["exit", 2], ["pm", 2], ["fin", 2]],
+         [["sched"], ["sched"], ["exit", 0], ["pm", 0], ["fin", 0], ["sched"], ["fin", 3], ["exit", 1], ["pm", 1],
+          ["fin", 1], ["next"], ["sched"], ["sched"], ["exit", 2], ["pm", 2], ["fin", 2]]]},
+    {"template": [{"name": "c0", "stage": 0, "refs": [], "wa": {"shutdownOn": ["KnownIssue"]}},
+                  {"name": "c1", "stage": 0, "refs": [], "wa": {}},
+                  {"name": "c2", "stage": 1, "refs": [0], "wa": {}},
+                  {"name": "c3", "stage": 1, "refs": [], "wa": {}}],
+     "cont": [], "scripts": {"stage0.c0": ["KnownIssue"]}, "seed": 4, "k": 6},
+    # aggregators without a replicated input (aggregator of an aggregator, also across a stage boundary); every task
+    # succeeds, so every component must end finished
+    {"template": [{"name": "c0", "stage": 0, "refs": [], "wa": {"replicate": 2}},
+                  {"name": "c1", "stage": 0, "refs": [0], "wa": {"aggregate": True}},
+                  {"name": "c2", "stage": 0, "refs": [1], "wa": {"aggregate": True}},
+                  {"name": "c3", "stage": 1, "refs": [1, 2], "wa": {"aggregate": True}}],
+     "cont": [], "scripts": {}, "seed": 5, "k": 3},
 ]
 
 
